@@ -10,6 +10,7 @@ from vf.simk.world import World, PAGESIZE
 
 ID = "C08"
 LEVEL = "exploration"
+ALT_MOUNT = True          # run once more with procfs mounted at /hostproc (vf/child.py)
 OPT = ["MemAvailable", "Buffers", "Cached", "SReclaimable", "Shmem", "MemShared", "Active", "Inactive", "Inact_dirty",
        "Inact_clean", "Inact_laundry", "Slab", "Active(file)", "Inactive(file)"]
 # regime -> values in kB (each key a distinct value so that a swapped key shows)
